@@ -58,43 +58,64 @@ def _mods():
     return G, _utils, div_mod, equality, sqrt, subtraction, summation
 
 
-def call_impl(c, call):
+def _call_impl(c, call, L):
     """apply one add_* call to the cirbo Circuit c; result normalised to a list of label lists"""
     G, U, DM, EQ, SQ, SB, SM = _mods()
     k = call[0]
     if k == 'gatett':
         return [[U.add_gate_from_tt(c, call[2], call[3], call[1])]]
     if k == 'sub2':
-        return [list(SB.add_sub2(c, list(call[1]), big_endian=call[2]))]
+        return [list(SB.add_sub2(c, L(call[1]), big_endian=call[2]))]
     if k == 'sub3':
-        return [list(SB.add_sub3(c, list(call[1]), big_endian=call[2]))]
+        return [list(SB.add_sub3(c, L(call[1]), big_endian=call[2]))]
     if k == 'sub':
-        return [list(SB.add_sub_two_numbers(c, list(call[1]), list(call[2]), big_endian=call[3]))]
+        return [list(SB.add_sub_two_numbers(c, L(call[1]), L(call[2]), big_endian=call[3]))]
     if k == 'subcmp':
-        r, b = SB.add_subtract_with_compare(c, list(call[1]), list(call[2]), big_endian=call[3])
+        r, b = SB.add_subtract_with_compare(c, L(call[1]), L(call[2]), big_endian=call[3])
         return [list(r), [b]]
     if k == 'sum2':
-        return [list(SM.add_sum_two_numbers(c, list(call[1]), list(call[2]), big_endian=call[3]))]
+        return [list(SM.add_sum_two_numbers(c, L(call[1]), L(call[2]), big_endian=call[3]))]
     if k == 'divmod':
-        q, r = DM.add_div_mod(c, list(call[1]), list(call[2]), big_endian=call[3])
+        q, r = DM.add_div_mod(c, L(call[1]), L(call[2]), big_endian=call[3])
         return [list(q), list(r)]
     if k == 'sqrt':
-        return [list(SQ.add_sqrt(c, list(call[1]), big_endian=call[2]))]
+        return [list(SQ.add_sqrt(c, L(call[1]), big_endian=call[2]))]
     if k == 'equal':
-        return [[EQ.add_equal(c, list(call[1]), call[2])]]
+        return [[EQ.add_equal(c, L(call[1]), call[2])]]
     if k == 'plusone':
-        rl = None if call[2] is None else list(call[2])
-        return [list(G.add_plus_one(c, list(call[1]), result_labels=rl, add_outputs=call[3], big_endian=call[4]))]
+        rl = None if call[2] is None else L(call[2])
+        return [list(G.add_plus_one(c, L(call[1]), result_labels=rl, add_outputs=call[3], big_endian=call[4]))]
     if k == 'ite':
         return [[G.add_if_then_else(c, call[1], call[2], call[3], result_label=call[4], add_outputs=call[5])]]
     if k == 'pite':
-        rl = None if call[4] is None else list(call[4])
-        return [list(G.add_pairwise_if_then_else(c, list(call[1]), list(call[2]), list(call[3]),
+        rl = None if call[4] is None else L(call[4])
+        return [list(G.add_pairwise_if_then_else(c, L(call[1]), L(call[2]), L(call[3]),
                                                  result_labels=rl, add_outputs=call[5]))]
     if k == 'pxor':
-        rl = None if call[3] is None else list(call[3])
-        return [list(G.add_pairwise_xor(c, list(call[1]), list(call[2]), result_labels=rl, add_outputs=call[4]))]
+        rl = None if call[3] is None else L(call[3])
+        return [list(G.add_pairwise_xor(c, L(call[1]), L(call[2]), result_labels=rl, add_outputs=call[4]))]
     raise ValueError(k)
+
+
+class OperandListMutated(Exception):
+    pass
+
+
+def call_impl(c, call):
+    """operand label lists are handed over as real list objects; equal operand lists are the SAME object
+    (callers do write `add_div_mod(c, xs, xs)`), and no generator may modify a list it was given"""
+    handed = {}
+
+    def L(x):
+        key = tuple(x)
+        if key not in handed:
+            handed[key] = list(x)
+        return handed[key]
+    res = _call_impl(c, call, L)
+    for key, obj in handed.items():
+        if tuple(obj) != key:
+            raise OperandListMutated(f'{call[0]} modified an operand list it was given: {list(key)} became {obj}')
+    return res
 
 
 def run_impl(case):
@@ -447,6 +468,14 @@ def quick_cases(rng, max_w=12, reps=1, extra_widths=(), heavy_cap=None):
             for ao in (False, True):
                 for mode in ('none', 'ok'):
                     cases.append(make_call(rng, 'ite', 1, on_host, k0(), variant=(mode, ao)))
+    # the same operand twice (x op x): the harness hands over ONE list object for both operands
+    for w in (1, 2, 3, 4):
+        for kind in ('sub', 'subcmp', 'sum2', 'divmod'):
+            for be in (False, True):
+                c0 = make_call(rng, kind, w, False, k0())
+                a = list(c0['call'][1])[:w]
+                c0['call'] = [kind, a, list(a), be]
+                cases.append(c0)
     # error paths and label clashes (host circuits only)
     for _ in range(reps):
         for w in (1, 2, 3, 5):
